@@ -7,6 +7,7 @@
 use crate::error::{QueryError, Result};
 use crate::execution::{ExecutionConfig, SharedMemoryPool};
 use crate::physical::operators::filter::evaluate_expr;
+use crate::physical::operators::hash_join::widen_join_keys;
 use crate::physical::{PhysicalOperator, RecordBatchStream};
 use crate::planner::{Expr, JoinType};
 use arrow::array::{
@@ -2113,7 +2114,7 @@ fn partition_batch_by_hash(
 ) -> Result<Vec<Option<RecordBatch>>> {
     let key_arrays: Result<Vec<ArrayRef>> =
         key_exprs.iter().map(|e| evaluate_expr(batch, e)).collect();
-    let key_arrays = key_arrays?;
+    let key_arrays = widen_join_keys(key_arrays?)?;
 
     // Compute partition for each row
     let mut partition_indices: Vec<Vec<usize>> = (0..num_partitions).map(|_| Vec::new()).collect();
@@ -2366,7 +2367,8 @@ fn extract_join_key(arrays: &[ArrayRef], row: usize) -> JoinKey {
                 return JoinValue::String(a.value(row).to_string());
             }
 
-            JoinValue::Null
+            // `widen_join_keys` admits only the types handled above.
+            unreachable!("join key of type {} was not widened", arr.data_type())
         })
         .collect();
 
@@ -2382,7 +2384,7 @@ fn build_hash_table(
     for (batch_idx, batch) in batches.iter().enumerate() {
         let key_arrays: Result<Vec<ArrayRef>> =
             key_exprs.iter().map(|e| evaluate_expr(batch, e)).collect();
-        let key_arrays = key_arrays?;
+        let key_arrays = widen_join_keys(key_arrays?)?;
 
         for row_idx in 0..batch.num_rows() {
             let key = extract_join_key(&key_arrays, row_idx);
@@ -2421,7 +2423,7 @@ fn probe_partition(
             .iter()
             .map(|e| evaluate_expr(probe_batch, e))
             .collect();
-        let probe_key_arrays = probe_key_arrays?;
+        let probe_key_arrays = widen_join_keys(probe_key_arrays?)?;
 
         let mut build_indices: Vec<(usize, usize)> = Vec::new();
         let mut probe_indices: Vec<usize> = Vec::new();
